@@ -213,6 +213,28 @@ func (r *Run) Finish() int {
 	return 0
 }
 
+// FinishReplay reports whether the violation stored in a replay file (same property, seed, tier: the check regenerates
+// the same inputs) still occurs; the evidence file is not rewritten.
+func (r *Run) FinishReplay(key, file string) int {
+	if _, ok := r.knownSeen[key]; ok {
+		fmt.Printf("KNOWN-FINDING: property=%s %s [%s]\n", r.ID, r.known[key].What, key)
+		return 0
+	}
+	for _, v := range r.viol {
+		if v.Key == key {
+			if v.NoInput {
+				fmt.Printf("VIOLATION property=%s replay=%s no-failing-input-found\n", r.ID, file)
+			} else {
+				fmt.Printf("VIOLATION property=%s replay=%s\n", r.ID, file)
+			}
+			fmt.Printf("  %s: %s\n", v.Key, v.What)
+			return 1
+		}
+	}
+	fmt.Printf("not reproduced: the input stored in %s (key %s) no longer fails\n", file, key)
+	return 0
+}
+
 func (r *Run) writeEvidence() {
 	vd := VerifDir()
 	cov := map[string]interface{}{}
